@@ -5,12 +5,21 @@ G: TLC generates operation sequences from the two specifications (BFS = *every* 
 -simulate = seeded random sequences up to 200 operations, plus a family that drives the dict through its rehash
 threshold) together with the expected return value, visited elements and full content after each step; the driver
 harness/c50drv.cpp replays them on real xbt_dynar_t / xbt_dict_t objects; Python only compares, step by step.
+
+Mutation evidence (tools/mutbuild.sh lib, quick tier):
+  caught  xbt_dynar_insert_at_ptr shifts one element too few        -> content after insert_at / unshift
+  caught  xbt_dynar_remove_at moves one element too few             -> content after remove_at / shift
+  caught  xbt_dict_remove_ext does not decrement the count          -> length after remove
+  caught  xbt_dict_rehash leaves some buckets in the wrong half      -> content after the bulk insertion that crosses the threshold
 """
 import json, os
 import vlib
 import lib_common as L
 
 LEVEL = "model_checking"
+META = {"text": "spec/lib/Dynar.tla (finite sequence: push, pop, shift, unshift, insert_at, remove_at, get, set, sort, member, foreach, map, length, is_empty, reset) and spec/lib/Dict.tla (finite function: set, get_or_null, get_elm_or_null, remove, length, is_empty, cursor traversal, bulk insertion/removal) are the models; TLC generates every 3-step operation sequence of the small scope (2-3 values, 3 keys; 4 steps on 2 keys in the thorough tier) and seeded random sequences of 200 / 60 / 14 steps (one family crosses the dict's rehash threshold) with the expected return value, traversal and full content after each step; the driver replays them on real xbt_dynar_t (elements of 4 and 24 bytes) and xbt_dict_t objects and every step is compared. Traversal order of the dict is left open (each key exactly once).",
+        "note": "Trusted: TLC, the driver's rendering of key identifiers as strings (three naming schemes; the default string hash is a sum of squares, so anagram keys share hash codes). Containers of pointers with free functions, operations outside their preconditions and xbt_dict_cursor_* used by hand are not exercised.",
+        "technique": "TLC-generated behaviours (BFS + -simulate) replayed into the real containers (G)"}
 DRIVERS = {"c50drv": L.DRIVERS["c50drv"]}
 
 DYN_MUTATING = {"push", "pop", "unshift", "shift", "insert_at", "remove_at", "set", "sort", "map", "reset"}
